@@ -341,6 +341,75 @@ class FieldWorld(World):
     apply_model = SegmentWorld.apply_model
 
 
+# ------------------------------------------------------------------ component world
+class ComponentWorld(FieldWorld):
+    """C, D: two instances of one complex component; children are its leaf sub-components"""
+    kind = 'component'
+
+    def __init__(self, version, level, rng, cname=None):
+        World.__init__(self, version, level, rng)
+        from hl7apy import core
+        self.core = core
+        cands = []
+        for dt in tables.complex_datatypes(version):
+            for c in tables.components(version, dt):
+                if not (c.ok and c.kind == 'sequence' and c.card[1] != 0) or tables.is_base(version, c.datatype):
+                    continue
+                subs = tables.components(version, c.datatype)
+                leafs = [x for x in subs if x.ok and x.card[1] != 0 and x.kind == 'leaf' and x.datatype in TEXTUAL]
+                if len(leafs) >= 3 and all(x.kind == 'leaf' for x in subs):
+                    cands.append((c, subs, leafs))
+        if cname:
+            cands = [x for x in cands if x[0].name == cname]
+        if not cands:
+            raise RuntimeError('no complex component with three textual sub-components in %s' % version)
+        c, subs, leafs = rng.choice(cands)
+        self.row, self.comps = c, {x.name: x for x in leafs[:4]}
+        self.names = sorted(self.comps, key=lambda n: self.comps[n].num)
+        self.long = {x.name: x.long_name for x in self.comps.values() if _long_ok(core.Component, x.long_name, subs)}
+        for k in ('F', 'G'):
+            self.els[k] = core.Component(c.name, version=version, validation_level=level)
+            self.model[k] = {n: [] for n in self.names}
+
+    def describe(self):
+        d = World.describe(self)
+        d['component'] = self.row.name
+        return d
+
+    def spelling(self, name):
+        r = self.rng.random()
+        if r < 0.4:
+            return name.lower()
+        if r < 0.6:
+            return name
+        if r < 0.85 and name in self.long:
+            return self.long[name].lower()
+        return name.capitalize()
+
+    def encode_model(self, el):
+        m = self.model[el]
+        top = max([self.comps[n].num for n in m if m[n]] or [0])
+        parts = [''] * (top + 1)
+        for n, reps in m.items():
+            if reps:
+                parts[self.comps[n].num] = '&'.join(reps)
+        return '&'.join(parts[1:])
+
+    def apply_real(self, op):
+        core = self.core
+        k, el = op[0], self.els[op[1]]
+        if k == 'add_new':
+            c = core.SubComponent(op[2], version=self.version, validation_level=self.level)
+            self.guard(lambda: setattr(c, 'value', op[3]))
+            self.detached.append(c)
+            self.guard(lambda: el.add(c))
+        elif k == 'add_helper':
+            c = self.guard(lambda: el.add_subcomponent(op[2]))
+            self.guard(lambda: setattr(c, 'value', op[3]))
+        else:
+            FieldWorld.apply_real(self, op)
+
+
 # ------------------------------------------------------------------ message world
 class MessageWorld(World):
     kind = 'message'
@@ -521,7 +590,8 @@ def structref_msh9(version, structure):
 
 
 def make_world(kind, version, level, rng, **kw):
-    return {'segment': SegmentWorld, 'field': FieldWorld, 'message': MessageWorld}[kind](version, level, rng, **kw)
+    return {'segment': SegmentWorld, 'field': FieldWorld, 'message': MessageWorld,
+            'component': ComponentWorld}[kind](version, level, rng, **kw)
 
 
 # ------------------------------------------------------------------ wild and fault operations (C10 / C12)
@@ -556,13 +626,14 @@ def wild_op(world, kind=None):
 def _maxcard(world, name):
     if world.kind == 'segment':
         return world.rows[name].card[1]
-    if world.kind == 'field':
+    if world.kind in ('field', 'component'):
         return world.comps[name].card[1]
     return world.nodes[name].card[1]
 
 
 def _child_cls(world):
-    return {'segment': world.core.Field, 'field': world.core.Component, 'message': world.core.Segment}[world.kind]
+    return {'segment': world.core.Field, 'field': world.core.Component, 'message': world.core.Segment,
+            'component': world.core.SubComponent}[world.kind]
 
 
 def _child_text(world, name, val):
@@ -604,14 +675,16 @@ def apply_wild(world, op):
         return list(e.children.indexes.get(name, []))
     if k == 'f_wrong_class':
         offered = core.SubComponent(datatype='ST', value='x', version=world.version, validation_level=world.level) \
-            if world.kind != 'field' else core.Segment('PID', version=world.version, validation_level=world.level)
+            if world.kind not in ('field', 'component') else core.Segment('PID', version=world.version,
+                                                                          validation_level=world.level)
         world.detached.append(offered)
         G(lambda: el.add(offered))
     elif k == 'f_wrong_name':
-        bad = {'segment': 'zzz_1' if world.seg != 'ZZZ' else 'pid_1', 'field': 'zz_1', 'message': 'qqq'}[world.kind]
+        bad = {'segment': 'zzz_1' if world.kind == 'segment' and world.seg != 'ZZZ' else 'pid_1', 'field': 'zz_1',
+               'message': 'qqq', 'component': 'msg_1'}[world.kind]
         if world.kind == 'segment':
             bad = 'msh_3' if world.seg != 'MSH' else 'pid_3'
-        elif world.kind == 'field':
+        elif world.kind in ('field', 'component'):
             bad = 'msg_1' if world.row.datatype != 'MSG' else 'cx_1'
         G(lambda: setattr(el, bad, _child_text(world, name, val)))
     elif k == 'f_foreign_elem':
@@ -757,6 +830,8 @@ def apply_wild(world, op):
             G(lambda: setattr(el, 'value', '%s|%s' % (world.seg, '|'.join([val, '', val + '~' + val]))))
         elif world.kind == 'field':
             G(lambda: setattr(el, 'value', '^'.join([val, '', val + 'c'])))
+        elif world.kind == 'component':
+            G(lambda: setattr(el, 'value', '&'.join([val, '', val + 'c'])))
         else:
             return None
     elif k == 'w_setitem_view':
